@@ -45,6 +45,9 @@ def alive(pid):
 
 
 def run(c):
+    import ctypes
+    if ctypes.CDLL(None, use_errno=True).prctl(36, 1, 0, 0, 0) != 0:      # PR_SET_CHILD_SUBREAPER
+        raise RuntimeError("prctl(PR_SET_CHILD_SUBREAPER) failed")
     exe = c.build_harness("h_c16")
     c.build_probe("target")
     scratch = c.tmpdir("scratch")
@@ -61,6 +64,10 @@ def run(c):
     # the same launch steps with a program that runs under other ids than the launcher
     for st in EARLY_STEPS + STEPS[:3]:
         plan.append(("ptrace_step_cred:" + st, 0.0))
+    # a child whose set-up takes long (3000 mounts): the controller dies while the child is still far from asking to be traced; the check process
+    # is a child subreaper here (as under systemd --user, docker-init, supervisors), so an orphan's new parent is not pid 1
+    for d in ([0.0, 0.05] if c.quick() else [0.0, 0.02, 0.05, 0.1, 0.15]):
+        plan.append(("ptrace_step_slow:tracer started#1", d))
     plan.append(("ptrace_noseccomp_running", 0.0))
     plan.append(("ptrace_noseccomp_running", 0.05))
     step_obs = []
